@@ -25,27 +25,50 @@ var errTunnelClosed = errors.New("tcp: tunnel closed")
 // When one side signals EOF the write side of the other connection is
 // closed so that the peer sees the EOF as well but can still send its
 // remaining data, e.g. the reply to a client which has half-closed the
-// connection after sending its request. The tunnel ends when both
-// directions are done, when copying fails or when the EOF cannot be
-// passed on. The caller is responsible for closing both connections.
+// connection after sending its request.
+//
+// A direction which fails ends only itself: the other direction may
+// still be delivering the data of a side which has finished properly,
+// e.g. a client which has sent its request and left while the upstream
+// is still reading it. The peer is told that nothing more will come
+// (half-close) and the tunnel ends when the other direction is over,
+// too.
+//
+// The tunnel ends at once when the end of a direction cannot be passed
+// on or when one of the connections has been closed locally (shutdown).
+// The first error is returned. The caller is responsible for closing
+// both connections.
 func tunnel(in net.Conn, inr io.Reader, out net.Conn, rx, tx gkm.Counter) error {
-	errc := make(chan error, 2)
+	type result struct {
+		err  error
+		stop bool // do not wait for the other direction
+	}
+	resc := make(chan result, 2)
 	cp := func(dst net.Conn, src io.Reader, c gkm.Counter) {
 		err := copyBuffer(dst, src, c)
-		if err == nil {
-			cw, ok := dst.(closeWriter)
-			if !ok || cw.CloseWrite() != nil {
+		if errors.Is(err, net.ErrClosed) {
+			resc <- result{err, true}
+			return
+		}
+		cw, ok := dst.(closeWriter)
+		if !ok || (cw.CloseWrite() != nil && err == nil) {
+			if err == nil {
 				err = errTunnelClosed
 			}
+			resc <- result{err, true}
+			return
 		}
-		errc <- err
+		resc <- result{err, false}
 	}
 
 	go cp(in, out, rx)
 	go cp(out, inr, tx)
-	err := <-errc
-	if err == nil {
-		err = <-errc
+	res := <-resc
+	err := res.err
+	if !res.stop {
+		if res = <-resc; err == nil {
+			err = res.err
+		}
 	}
 	if err == errTunnelClosed {
 		err = nil
